@@ -35,6 +35,11 @@ type SimKV struct {
 	failAt      int // 1-based index of the write that returns ErrSimIO
 	fenced      bool
 
+	afterAt int    // 1-based index of the write after whose commit afterFn runs
+	afterFn func() // called once, on the writing goroutine, without the lock
+	// FiredAfterWrite counts after-write callbacks that actually ran.
+	FiredAfterWrite int
+
 	// Fired counters (what actually happened, not what was configured).
 	FiredCrashBefore, FiredCrashAfter, FiredFail int
 
@@ -87,10 +92,22 @@ func (s *SimKV) CrashAfter(k int) { s.mu.Lock(); s.crashAfter = s.writes + k; s.
 // FailWrite makes the k-th write from now return ErrSimIO (no fence).
 func (s *SimKV) FailWrite(k int) { s.mu.Lock(); s.failAt = s.writes + k; s.mu.Unlock() }
 
+// AfterWrite arms a callback that runs right after the k-th write from now
+// has committed, on the goroutine that made the write and before the writing
+// call returns: a seam for faults that must land INSIDE an operation (e.g. a
+// peer disconnect between a durable write and the in-memory hand-over that
+// follows it). The write itself is unaffected.
+func (s *SimKV) AfterWrite(k int, f func()) {
+	s.mu.Lock()
+	s.afterAt, s.afterFn = s.writes+k, f
+	s.mu.Unlock()
+}
+
 // Disarm clears pending injections.
 func (s *SimKV) Disarm() {
 	s.mu.Lock()
 	s.crashBefore, s.crashAfter, s.failAt = 0, 0, 0
+	s.afterAt, s.afterFn = 0, nil
 	s.mu.Unlock()
 }
 
@@ -113,6 +130,7 @@ func (s *SimKV) Reopen() error {
 	s.fenced = false
 	s.writes, s.reads = 0, 0
 	s.crashBefore, s.crashAfter, s.failAt = 0, 0, 0
+	s.afterAt, s.afterFn = 0, nil
 	return nil
 }
 
@@ -163,11 +181,21 @@ func (s *SimKV) post(k int, err error) error {
 		return err
 	}
 	s.mu.Lock()
-	defer s.mu.Unlock()
 	if s.crashAfter == k {
 		s.fenced = true
 		s.FiredCrashAfter++
+		s.mu.Unlock()
 		return ErrSimCrashed
+	}
+	var fn func()
+	if s.afterAt == k && s.afterFn != nil {
+		fn = s.afterFn
+		s.afterAt, s.afterFn = 0, nil
+		s.FiredAfterWrite++
+	}
+	s.mu.Unlock()
+	if fn != nil {
+		fn()
 	}
 	return nil
 }
